@@ -243,7 +243,7 @@ func (r Iterator[T]) Filter(p func(T) bool) Iterator[T] {
 			if hasNext() {
 
 				ret := fv.Get()
-				fv = r.Find(p)
+				first = true // look for the following match lazily, on the next HasNext
 				return ret
 			}
 			return r.nextOnEmpty()
